@@ -45,6 +45,9 @@ var c11Frames = map[string]string{
 	"errlead":  `{"error":".MethodNotFound","parameters":{"method":"M"}}`,
 	"errsvcx":  `{"error":"org.varlink.service.Unknown","parameters":{"x":1}}`,
 	// a complete JSON value with something behind it: not a JSON text
+	// both an error and a continues flag: an error frame
+	"errcont":     `{"error":"x.y.E","continues":true,"parameters":{"k":"v"}}`,
+	"mnfcont":     `{"continues":true,"error":"org.varlink.service.MethodNotFound","parameters":{"method":"M"}}`,
 	"tailbrace":   `{"parameters":{"a":1}}}`,
 	"tailbracket": `null]`,
 	"tailobj":     `{"continues":true}{"error":"x.y.E"}`,
@@ -52,7 +55,7 @@ var c11Frames = map[string]string{
 	"tailcomma":   `{"parameters":{}},`,
 }
 
-var c11Order = []string{"empty", "params", "cont", "err", "mnf", "mnfbad", "null", "array", "number", "string", "contx", "err5", "params5", "errempty", "trunc", "badutf", "zero", "big", "contfalse", "errnop", "errnullp", "mnfnop", "ipnullp", "errnodot", "errdot", "errlead", "errsvcx", "tailbrace", "tailbracket", "tailobj", "tailword", "tailcomma"}
+var c11Order = []string{"empty", "params", "cont", "err", "mnf", "mnfbad", "null", "array", "number", "string", "contx", "err5", "params5", "errempty", "trunc", "badutf", "zero", "big", "contfalse", "errnop", "errnullp", "mnfnop", "ipnullp", "errnodot", "errdot", "errlead", "errsvcx", "tailbrace", "tailbracket", "tailobj", "tailword", "tailcomma", "errcont", "mnfcont"}
 
 type c11Desc struct {
 	Frames []string `json:"frames,omitempty"`
@@ -183,6 +186,16 @@ func c11Body(d c11Desc) func() {
 				var out interface{}
 				err = conn.Call(live, "a.b.M", map[string]int{"x": 1}, &out)
 				c11Judge(fail, d, off, 0, delivered, end, 0, err, out, nil)
+				// the server is gone (it has closed its end): a further call was never delivered, so nothing it
+				// "receives" is its reply - whatever is still buffered from before
+				vsched.Yield("wait-server-gone", "H", func() bool { return peer.IsClosed() })
+				var out2 interface{}
+				if err2 := conn.Call(live, "a.b.After", nil, &out2); err2 == nil {
+					fail("stream %v delivered up to offset %d, then the server closed: a second Call, made after that, reported success with %s", d.Frames, off, jstr(out2))
+				}
+				if _, err3 := conn.Send(live, "a.b.After", nil, varlink.Oneway); err3 == nil {
+					fail("stream %v delivered up to offset %d, then the server closed: a oneway Send made after that reported success", d.Frames, off)
+				}
 				continue
 			case "upgrade":
 				up, uerr := conn.Upgrade(live, "a.b.M", nil)
